@@ -435,8 +435,10 @@ def parse_mir(text, crate):
     i, n = 0, len(lines)
     while i < n:
         ln = lines[i]
-        if ln.startswith('const ') and ln.endswith('= {'):
-            body = ln[6:-4]
+        if (ln.startswith('const ') or ln.startswith('static ')) and ln.endswith('= {'):
+            is_static = ln.startswith('static ')
+            body = ln[7:-4] if is_static else ln[6:-4]
+            if is_static and body.startswith('mut '): body = body[4:]
             depth = 0; cut = -1
             for k, ch in enumerate(body):
                 if ch in '<([': depth += 1
@@ -444,7 +446,7 @@ def parse_mir(text, crate):
                 elif depth == 0 and body.startswith(': ', k):
                     cut = k; break
             if cut > 0:
-                ln = f'fn {body[:cut]}() -> {body[cut + 2:]} {{'
+                ln = f'fn {"static:" if is_static else ""}{body[:cut]}() -> {body[cut + 2:]} {{'
         if not ln.startswith('fn '):
             i += 1; continue
         m = HDR.match(ln)
